@@ -58,6 +58,29 @@ func (g *FuncGen) strLit(s string) string {
 	if !strings.Contains(s, "/") && s != "." && s != ".." && !strings.Contains(s, "\x00") {
 		g.emit(fmt.Sprintf("(assert (validName %s))", n))
 	}
+	// "key<sep>": a short literal ending in its only separator byte is the key followed by that byte (the key and the
+	// separator become literals of their own, the concatenation fact below relates the three)
+	if len(s) >= 2 && len(s) <= 16 {
+		last := s[len(s)-1]
+		if strings.IndexByte(" \n\t/:=", last) >= 0 && strings.IndexByte(s, last) == len(s)-1 {
+			g.strLit(s[:len(s)-1])
+			g.strLit(string(last))
+		}
+	}
+	// a literal that is the concatenation of two others: stated, since the solver has no extensionality for Bytes
+	for _, t := range g.litOrder {
+		for k := 1; k < len(t); k++ {
+			a, b := t[:k], t[k:]
+			if a != s && b != s && t != s {
+				continue
+			}
+			na, oka := g.lits[a]
+			nb, okb := g.lits[b]
+			if oka && okb {
+				g.emit(fmt.Sprintf("(assert (= (bcat %s %s) %s))", na, nb, g.lits[t]))
+			}
+		}
+	}
 	return n
 }
 
